@@ -232,10 +232,14 @@ func c40(c *report.Check) {
 	}
 	scns := c40Scenarios(c.Thorough())
 	tb := 2
+	plans := []e2.Plan{{Scns: scns, Bound: -1, TotalBound: tb, Batch: 1}}
 	if c.Thorough() {
-		tb = 3
+		// the wide set at bound 2 and the quick set at bound 3 (bound 3 on the wide set: ~28 min measured)
+		small := c40Scenarios(false)
+		plans = append(plans, e2.Plan{Scns: small[:len(small)/2], Bound: -1, TotalBound: 3, Batch: 1})
+		c.Set("scenarios_at_deviation_bound_3", len(small)/2)
 	}
-	sum := e2.Drive(c, []e2.Plan{{Scns: scns, Bound: -1, TotalBound: tb, Batch: 1}}, 0)
+	sum := e2.Drive(c, plans, 0)
 	c.Set("deviation_bound", tb)
 	reportE2(c, sum, fmt.Sprintf("the real tun.Pipe (two copier goroutines + completion goroutine, instrumented: sync->vsync, go statements, channel operations) over two scheduler-aware in-memory streams fed by two application threads with chunked payloads in both directions and every combination of how the sides end (EOF / error / never; final bytes delivered separately from or together with the end-of-stream): every schedule of %d scenarios with at most %d deviations from the canonical schedule", len(scns), tb), scns)
 	c.Assume("io.CopyBuffer and the buffer pool are atomic library steps between stream operations; stream Read/Write/Close are scheduling points", "an application stops writing into a stream it sees closed")
